@@ -55,7 +55,7 @@ pub fn run(run: &RunInfo) -> Summary {
             noise: noisy,
         };
         let st = dbx::explore(if noisy { 1 } else { 0 }, 200_000_000, |ctx| {
-            let o = history(ctx, &p, first, acc);
+            let o = history(ctx, &p, Some(first), acc);
             let (problems, trace) = (o.c07, o.trace);
             acc.count("executions", 1);
             if !problems.is_empty() {
@@ -72,7 +72,31 @@ pub fn run(run: &RunInfo) -> Summary {
             acc.count("capped", 1);
         }
     });
+    // state-deduplicated search beyond the depth bound (start from non-initial states too)
+    if !skip_for_replay(run, "c07/bfs") || run.replay_only.as_ref().map(|r| r["key"].as_str().unwrap_or("").contains("/bfs/")).unwrap_or(false) {
+        for max in 1..=3usize {
+            let p = HistParams {
+                max,
+                depth: 0,
+                ops: all_ops.clone(),
+                dangling: None,
+                reservation_menu: vec![Outcome::Ok, Outcome::Abort(0x6c), Outcome::Abort(0xfc), Outcome::NoStatus, Outcome::OkExtraStatus],
+                commit_menu: vec![Outcome::Ok, Outcome::Abort(0x6c)],
+                cancel_menu: vec![Outcome::Ok, Outcome::Abort(0xb4)],
+                eod_menu: vec![Eod::Completion],
+                noise: false,
+            };
+            let (levels, states, transitions, fix) = bfs(&p, 12, &format!("c07/max={max}"), |o| &o.c07, &mut acc);
+            acc.count("bfs_states", states as u64);
+            acc.count("bfs_state_transitions", transitions);
+            acc.max("bfs_levels", levels as u64);
+            if fix {
+                acc.count("w_bfs_fixpoint", 1);
+            }
+        }
+    }
     for (c, w) in [
+        ("w_bfs_fixpoint", "the state-deduplicated search reached its fixed point"),
         ("w_three_open", "three tokens open at once"),
         ("w_refused_at_max", "a begin was refused at the maximum"),
         ("w_token_reused", "a token was reused after it was closed"),
@@ -91,9 +115,10 @@ pub fn run(run: &RunInfo) -> Summary {
         transitions: acc.get("transitions"),
         traces_validated: execs,
         distinct_nontrivial: acc.set_len("states"),
-        rule: format!("real Feig client against the simulated terminal (paused clock): transactions_max_num 0..=3 x all call histories of depth {depth} over {{begin, commit(0), commit(pre), cancel}} x tokens {{A,B,C}} + read_card, the terminal's outcome of every request that really arrives chosen among {{success with the smallest free receipt number, the same followed by a further status information without receipt number, abort 6C, abort FC, completion without receipt}} (reservation) / {{completion, abort}} (commit, cancel). A second pass at depth - 1 additionally explores every single deviation of the terminal's reply shape (no / two intermediate statuses, a print line or an extra status information ahead of the final packet of any exchange). Every step is compared with the reference model (result class, refused calls cause no traffic, exact request incl. receipt number, clean-up when the map empties, client snapshot == model map). states = distinct (max, client map, terminal ledger)"),
+        rule: format!("real Feig client against the simulated terminal (paused clock): transactions_max_num 0..=3 x all call histories of depth {depth} over {{begin, commit(0), commit(pre), cancel}} x tokens {{A,B,C}} + read_card, the terminal's outcome of every request that really arrives chosen among {{success with the smallest free receipt number, the same followed by a further status information without receipt number, abort 6C, abort FC, completion without receipt}} (reservation) / {{completion, abort}} (commit, cancel). A second pass at depth - 1 additionally explores every single deviation of the terminal's reply shape (no / two intermediate statuses, a print line or an extra status information ahead of the final packet of any exchange). Finally a state-deduplicated breadth-first search (state = client map, connection flag, terminal ledger) executes every operation with every outcome from every reachable state until no new state appears (at most 12 levels). Every step is compared with the reference model (result class, refused calls cause no traffic, exact request incl. receipt number, clean-up when the map empties, client snapshot == model map). states = distinct (max, client map, terminal ledger)"),
         exhaustive: true,
         required_witnesses: vec![
+            "the state-deduplicated search reached its fixed point".into(),
             "three tokens open at once".into(),
             "a begin was refused at the maximum".into(),
             "a token was reused after it was closed".into(),
